@@ -127,9 +127,23 @@ def field_cases(rng, n):
         ipol = float(rays.i[0])
         rays.update_intensity(PolarizationState(False))
         iun = float(rays.i[0])
+        # the same accumulated (complex) matrix seen by orthogonal pairs of input states, and the reference |P E|^2
+        pairs = {}
+        d, g = rng.uniform(-3, 3), rng.uniform(-3, 3)
+        aa, bb = rng.uniform(0.1, 1), rng.uniform(0.1, 1)
+        for lab, r1, r2 in (('H/V', [1, 0, 0, 0], [0, 1, 0, 0]), ('RCP/LCP', [1, 1, 0, -math.pi / 2], [1, 1, 0, math.pi / 2]),
+                            ('elliptical', [aa, bb, g, g + d], [bb, -aa, g, g + d])):
+            vals = []
+            for rw in (r1, r2):
+                rays.update_intensity(PolarizationState(True, *rw))
+                vals.append(float(rays.i[0]))
+            pairs[lab] = vals
+        ex, ey = ref_field(k, [1, 0, 0, 0]), ref_field(k, [0, 1, 0, 0])
+        ref_un = float((np.sum(np.abs(P @ ex) ** 2) + np.sum(np.abs(P @ ey) ** 2)) / 2 * i0)
         out.append({'k': [float(x) for x in k], 'name': name, 'raw': raw,
                     'state': [st.Ex, st.Ey, st.phase_x, st.phase_y], 'i0': i0, 'P': cflat(P),
-                    'E0': cflat(E0[0]), 'ipol': ipol, 'iunpol': iun})
+                    'E0': cflat(E0[0]), 'ipol': ipol, 'iunpol': iun, 'pairs': pairs, 'ref_unpol': ref_un,
+                    'ref_pol': float(np.sum(np.abs(P @ ref_field(k, [st.Ex, st.Ey, st.phase_x, st.phase_y])) ** 2))})
     return out
 
 
@@ -188,7 +202,22 @@ def ref_field(k, st4):
     return ex * np.exp(1j * px) * s + ey * np.exp(1j * py) * p
 
 
-def ref_surface(k0, k1, n1, n2, reflective, fresnel):
+def ref_element(elem):
+    """textbook Jones matrix (padded) of an element in the s-p frame: retarder (d, theta) or circular polarizer"""
+    if elem[0] == 'retarder':
+        d, th = elem[1], elem[2]
+        c, sn = math.cos(th), math.sin(th)
+        R = np.array([[c, -sn], [sn, c]])
+        M = R @ np.diag([np.exp(-1j * d / 2), np.exp(1j * d / 2)]) @ R.T
+    else:
+        e = np.array([1.0, -1j if elem[1] == 'RCP' else 1j]) / math.sqrt(2)
+        M = np.outer(e, e.conj())
+    J = np.eye(3, dtype=complex)
+    J[:2, :2] = M
+    return J
+
+
+def ref_surface(k0, k1, n1, n2, reflective, fresnel, elem=None):
     """polarization matrix O_out J O_in of one surface from the ray directions and the two indices"""
     s = np.cross(k0, k1)
     if np.linalg.norm(s) < 1e-8:
@@ -196,7 +225,11 @@ def ref_surface(k0, k1, n1, n2, reflective, fresnel):
     s = s / np.linalg.norm(s)
     p0, p1 = np.cross(k0, s), np.cross(k1, s)
     J = np.eye(3, dtype=complex)
-    if fresnel:
+    if elem is not None:
+        if reflective:
+            return None
+        J = ref_element(elem)
+    elif fresnel:
         if reflective:
             return None                       # Fresnel reflection is not part of the generated layouts
         nv = n2 * k1 - n1 * k0                # refraction: the normal is along n2 k1 - n1 k0
@@ -244,9 +277,50 @@ def mirror_first_spec(rng, cls):
 
 
 MIRROR_CLASSES = ['fold-mirror-first', 'concave-mirror-first', 'mirror-then-fresnel-plate', 'mirror-then-fresnel-lens']
+ELEMENT_CLASSES = ['retarder-on-surface', 'quarter-wave-then-fresnel', 'circular-polarizer-on-surface']
 
 
-def traces(seed, n_lens, n_mirror=8):
+def element_spec(rng, cls):
+    """refracting lens (object at infinity, oblique/skew field) that carries a retarding or circularly selective element"""
+    inf = float('inf')
+    n = rng.uniform(1.4, 1.9)
+    surfs = [{'type': 'standard', 'radius': inf, 'thickness': rng.uniform(1, 3), 'material': 'air', 'is_stop': True},
+             {'type': 'standard', 'radius': rng.choice([inf, rng.uniform(40, 150)]), 'thickness': rng.uniform(2, 6),
+              'material': ['ideal', n, 0.0], 'is_stop': False},
+             {'type': 'standard', 'radius': rng.choice([inf, -rng.uniform(40, 150)]), 'thickness': rng.uniform(5, 20),
+              'material': 'air', 'is_stop': False}]
+    return {'object_thickness': inf, 'surfaces': surfs, 'aperture': ['EPD', rng.uniform(1.0, 4.0)], 'field_type': 'angle',
+            'fields': [[0.0, 0.0, 0.0, 0.0], [rng.uniform(5, 35), 0.0, 0.0, 0.0]], 'wavelengths': [[0.55, True]], 'telecentric': False}
+
+
+def attach_elements(o, rng, cls):
+    """put library Jones elements on surfaces through the library's own polarized-coating mechanism"""
+    from optiland.coatings import BaseCoatingPolarized
+    from optiland import jones as Jm
+
+    class ElementCoating(BaseCoatingPolarized):
+        def __init__(self, jones):
+            self.jones = jones
+    elems = {}
+    if cls == 'quarter-wave-then-fresnel':
+        o.surface_group.set_fresnel_coatings()
+        th = rng.uniform(-math.pi, math.pi)
+        o.surface_group.surfaces[1].coating = ElementCoating(Jm.JonesQuarterWaveRetarder(th))
+        elems[1] = ['retarder', math.pi / 2, th]
+    elif cls == 'retarder-on-surface':
+        for si in (1, rng.choice([2, 3])):
+            d, th = rng.uniform(-2 * math.pi, 2 * math.pi), rng.uniform(-math.pi, math.pi)
+            o.surface_group.surfaces[si].coating = ElementCoating(Jm.JonesLinearRetarder(d, th))
+            elems[si] = ['retarder', d, th]
+    else:
+        o.surface_group.set_fresnel_coatings()
+        nm = rng.choice(['RCP', 'LCP'])
+        o.surface_group.surfaces[1].coating = ElementCoating(Jm.JonesPolarizerRCP() if nm == 'RCP' else Jm.JonesPolarizerLCP())
+        elems[1] = ['circular', nm]
+    return elems
+
+
+def traces(seed, n_lens, n_mirror=8, n_element=6):
     import lensgen
     from optiland.rays import PolarizedRays, PolarizationState, create_polarization
     from optiland.rays.ray_generator import RayGenerator
@@ -273,10 +347,16 @@ def traces(seed, n_lens, n_mirror=8):
     PolarizedRays.update = wrapped
     RayGenerator.generate_rays = gen_wrapped
     try:
-        for li in range(n_lens + n_mirror):
+        for li in range(n_lens + n_mirror + n_element):
             layout = 'generic'
             matched = False
-            if li >= n_lens:
+            elems = {}
+            if li >= n_lens + n_mirror:
+                layout = ELEMENT_CLASSES[(li - n_lens - n_mirror) % 3]
+                spec = element_spec(rng, layout)
+                tilt = False
+                coated = True
+            elif li >= n_lens:
                 layout = MIRROR_CLASSES[(li - n_lens) % 4]
                 spec = mirror_first_spec(rng, layout)
                 tilt = False
@@ -304,13 +384,15 @@ def traces(seed, n_lens, n_mirror=8):
             has_tilt = any(abs(s.get('rx', 0)) + abs(s.get('ry', 0)) > 0 for s in spec['surfaces'])
             try:
                 o = lensgen.build(spec)
-                if coated:
+                if layout in ELEMENT_CLASSES:
+                    elems = attach_elements(o, rng, layout)
+                elif coated:
                     o.surface_group.set_fresnel_coatings()
                 raw = [rng.uniform(-2, 2), rng.uniform(-2, 2), rng.uniform(-math.pi, math.pi), rng.uniform(-math.pi, math.pi)]
                 st = PolarizationState(True, *raw)
                 o.set_polarization(st)
                 w = o.primary_wavelength
-                if layout in MIRROR_CLASSES:
+                if layout in MIRROR_CLASSES or layout in ELEMENT_CLASSES:
                     Hy = 1.0
                     Hx = rng.choice([0.0, rng.uniform(-0.6, 0.6)])      # skew launch: x field angle = Hx * max field
                 else:
@@ -322,7 +404,7 @@ def traces(seed, n_lens, n_mirror=8):
                 rays = o.trace(Hx, Hy, w, num_rays=3, distribution=dist)
                 sg = o.surface_group.surfaces[1:]
                 media = [(float(np.ravel(sf.material_pre.n(w))[0]), float(np.ravel(sf.material_post.n(w))[0]),
-                          bool(sf.is_reflective), sf.coating is not None) for sf in sg]
+                          bool(sf.is_reflective), sf.coating is not None, elems.get(si + 1)) for si, sf in enumerate(sg)]
             except Exception as e:       # lens not traceable (e.g. paraxial failure): skipped, counted
                 out.append({'lens': li, 'layout': layout, 'skipped': type(e).__name__ + ': ' + str(e)[:80]})
                 continue
@@ -355,14 +437,14 @@ def traces(seed, n_lens, n_mirror=8):
                 fin = bool(np.all(np.isfinite(kfin[r])) and np.all(np.isfinite(rays.p[r])))
                 surfs = [{'k0': [float(x) for x in k0[r]], 'k1': [float(x) for x in k1[r]],
                           'J': None if J is None else cflat(J[r])} for (k0, k1, J, _) in rec]
-                item = {'lens': li, 'layout': layout, 'spec': spec, 'coated': coated, 'tilted': has_tilt, 'matched': matched,
+                item = {'lens': li, 'layout': layout, 'elements': {str(k): v for k, v in elems.items()}, 'spec': spec, 'coated': coated, 'tilted': has_tilt, 'matched': matched,
                         'ray': int(r), 'finite': fin, 'Hx': Hx, 'Hy': Hy,
                         'raw': raw, 'state': [st.Ex, st.Ey, st.phase_x, st.phase_y],
                         'klaunch': [float(x) for x in klaunch[r]], 'kfinal': [float(x) for x in kfin[r]],
                         'klaunch_stored': [float(rays._L0[r]), float(rays._M0[r]), float(rays._N0[r])],
                         'surfs': surfs, 'P': cflat(rays.p[r]), 'ipol': float(ipol[r]), 'iunpol': float(iun[r]),
                         'i0': float(rays._i0[r]), 'ints': {k: float(v[r]) for k, v in ints.items()},
-                        'Edotk': float(abs(np.sum(E1[r] * kfin[r]))), 'E1': cflat(E1[r])}
+                        'Edotk': float(abs(np.sum(E1[r] * kfin[r]))), 'E1': cflat(E1[r]), 'complex_P': float(np.max(np.abs(np.imag(rays.p[r])))) if fin else 0.0}
                 # ---- independent reference for the STATED states, from the launch direction copied at launch ----
                 if fin and len(rec) == len(media) and abs(klaunch[r][1]) + abs(klaunch[r][2]) > 1e-9:
                     kl = klaunch[r]
@@ -374,8 +456,8 @@ def traces(seed, n_lens, n_mirror=8):
                     Pref = np.eye(3, dtype=complex)
                     ok = True
                     jerr = 0.0
-                    for (k0, k1, J, _), (n1, n2, refl, coat) in zip(rec, media):
-                        Q = ref_surface(k0[r], k1[r], n1, n2, refl, coat)
+                    for (k0, k1, J, _), (n1, n2, refl, coat, elem) in zip(rec, media):
+                        Q = ref_surface(k0[r], k1[r], n1, n2, refl, coat, elem)
                         if Q is None:
                             ok = False
                             break
@@ -558,7 +640,7 @@ def main():
         res['named'] = named_cases()
         res['plates'] = wave_plates(rng, 12)
     if 'traces' in job['what']:
-        res['traces'] = traces(job['seed'] + 1, job['n_lens'], job.get('n_mirror', 8))
+        res['traces'] = traces(job['seed'] + 1, job['n_lens'], job.get('n_mirror', 8), job.get('n_element', 6))
     if 'oracles' in job['what']:
         c, f = oracles(job['seed'] + 2, job['n_oracle'])
         res['oracles'] = {'count': c, 'fails': f}
